@@ -79,6 +79,23 @@ Theorem C21_name_tree_update_sorted :
 Proof. intros l H. split; [intros k v; exact (nt_insert_sorted k v l H)|intros k; exact (nt_remove_sorted k l H)]. Qed.
 Print Assumptions C21_name_tree_update_sorted.
 
+(* the version of a written document: no catalog /Version survives, the header (1.7, or 2.0 for a
+   PDF 2.0 document) is the effective version, it covers every feature introduced up to 1.7 —
+   whatever header and catalog version the input had — and is never lower than the input's *)
+Theorem C21_written_version_covers_features :
+  forall ensured h r,
+  snd (write_versions ensured h r) = None /\
+  (forall since, (since <= 17)%N ->
+     (since <= effective (fst (write_versions ensured h r)) (snd (write_versions ensured h r)))%N) /\
+  (valid_version (effective h r) = true ->
+     (effective h r <= effective (fst (write_versions false h r)) (snd (write_versions false h r)))%N).
+Proof.
+  intros ensured h r. split; [reflexivity|]. split.
+  - intros since Hs. exact (write_versions_covers ensured h r since Hs).
+  - exact (write_versions_monotone h r).
+Qed.
+Print Assumptions C21_written_version_covers_features.
+
 (* non-vacuity: a tree with a wrong /Count has the right shape, is not valid, and is valid after
    the writer's rewrite; removing page 2 leaves pages 1 and 3 *)
 Definition ex_leaf (id : N) : ptree := PLeaf id [(kType, OName kPage)].
